@@ -122,6 +122,31 @@ Section ParOk.
   Qed.
 End ParOk.
 
+(* every fork-join plan, whichever half runs first at every split, is a schedule *)
+Lemma plan_order_perm p : forall lo hi, lo <= hi -> Permutation (plan_order p lo hi) (seq lo (hi - lo)).
+Proof.
+  induction p as [|mid rf l IHl r IHr]; intros lo hi H; cbn [plan_order]; [apply Permutation_refl|].
+  set (m := Nat.min hi (Nat.max lo mid)).
+  assert (Hm : lo <= m <= hi) by (unfold m; lia).
+  replace (hi - lo) with ((m - lo) + (hi - m)) by lia.
+  rewrite seq_app. replace (lo + (m - lo)) with m by lia.
+  destruct rf.
+  - eapply perm_trans; [apply Permutation_app_comm|].
+    apply Permutation_app; [apply IHl | apply IHr]; lia.
+  - apply Permutation_app; [apply IHl | apply IHr]; lia.
+Qed.
+
+Theorem run_par_plan_independent {X Y} (f : X -> Y) (p : plan) (xs : list X) :
+  run_par (plan_order p 0 (length xs)) f xs = Ok (map f xs).
+Proof.
+  apply run_par_schedule_independent.
+  pose proof (plan_order_perm p 0 (length xs) (Nat.le_0_l _)) as H. now rewrite Nat.sub_0_r in H.
+Qed.
+
+Example plan_example :
+  plan_order (PFork 2 true (PFork 1 false PSeq PSeq) (PFork 4 true PSeq PSeq)) 0 6 = [4; 5; 2; 3; 0; 1].
+Proof. reflexivity. Qed.
+
 Example incomplete_schedule_panics :
   run_par [0; 2] (fun x => x + 1) [10; 20; 30] = Panic "rayon collect: a slot was not written".
 Proof. reflexivity. Qed.
